@@ -47,7 +47,9 @@ fn env_prepare(tx: &SyncSender<u64>, rx: Receiver<u64>, outcome: u8, send_ok: bo
                 // a consumer takes the dummy after the helper found the channel full, then hands the receiver back
                 let (back_tx, back_rx) = std::sync::mpsc::channel();
                 std::thread::spawn(move || {
-                    std::thread::sleep(std::time::Duration::from_millis(3));
+                    // the consumer stalls LONGER than the helper's 10 ms delay: the channel is still full when the helper
+                    // resumes, so only a blocking send (not a second try_send) delivers
+                    std::thread::sleep(std::time::Duration::from_millis(80));
                     assert_eq!(rx.recv().unwrap(), u64::MAX);
                     // wait until the helper's blocking send has delivered, then return the receiver
                     std::thread::sleep(std::time::Duration::from_millis(30));
@@ -57,8 +59,8 @@ fn env_prepare(tx: &SyncSender<u64>, rx: Receiver<u64>, outcome: u8, send_ok: bo
                 None
             } else {
                 std::thread::spawn(move || {
-                    std::thread::sleep(std::time::Duration::from_millis(3));
-                    drop(rx); // consumer disappears while the channel is full
+                    std::thread::sleep(std::time::Duration::from_millis(80));
+                    drop(rx); // consumer disappears while the channel is full (after the helper started to block)
                 });
                 None
             }
